@@ -770,6 +770,11 @@ def options_and_files_stream(ctx, res):
                     break
 
 
+def extension_roundtrip_stream(ctx, res):
+    import extstreams
+    extstreams.extension_roundtrip_stream(ctx, res, "C02")
+
+
 def equal_other_type_stream(ctx, res):
     """untyped fields that DECLARE a default, holding a value that is `==` the default but of another type (True / 1, 0 / False, 2 / 2.0,
     lists and maps of such): the saved value comes back, not the default it compares equal to — at the root, nested and in list items"""
@@ -831,6 +836,7 @@ def run(ctx, n_quick=400, n_thorough=6000):
     guard(res, "C02", equal_other_type_stream, ctx, res)
     guard(res, "C02", text_shapes_stream, ctx, res)
     guard(res, "C02", options_and_files_stream, ctx, res)
+    guard(res, "C02", extension_roundtrip_stream, ctx, res)
     guard(res, "C02", lambda: P.run_stream(ctx, res, "C02", ctx.n(n_quick, n_thorough), oracle, gen_ops=gen_ops, ops_len=(3, 10),
                  schema_opts={"virtual": True}, label="save-reload"))
     replies = ctx.model([r for _, _, r in PENDING])
